@@ -233,7 +233,15 @@ pub fn create_trio(
 // ------------------------------------------------------------------ pair operations
 
 pub fn pair_provide(w: &mut World, p: &PairH, user: &str, d: [u128; 2], slippage: Option<Decimal>, receiver: Option<&str>) -> TxResult {
-    let assets = [asset(&p.assets[0], d[0]), asset(&p.assets[1], d[1])];
+    pair_provide_ordered(w, p, user, d, slippage, receiver, false)
+}
+
+/// `d` is in the pool's asset order; with `reversed` the message lists the two assets in the opposite order
+pub fn pair_provide_ordered(w: &mut World, p: &PairH, user: &str, d: [u128; 2], slippage: Option<Decimal>, receiver: Option<&str>, reversed: bool) -> TxResult {
+    let mut assets = [asset(&p.assets[0], d[0]), asset(&p.assets[1], d[1])];
+    if reversed {
+        assets.swap(0, 1);
+    }
     // cw20 sides need an allowance (a separate, always-successful transaction by the user)
     for (i, a) in p.assets.iter().enumerate() {
         if let AssetInfo::Token { contract_addr } = a {
